@@ -423,13 +423,72 @@ class GeneratedColor(Generated):
         self.p = Product(range(len(docs)), [True, False], [None, "#778899"])
 
 
+class CallerTransform(SubCheck):
+    """the transform= keyword of SVG.parse is the transform attribute of the outermost svg element given by the caller: the
+    paint, the stroke width and the effective stroke width (scaling and non-scaling strokes) of every shape are what the
+    document with that attribute written into its root gives (differential; both reify settings)"""
+    name = "caller-transform"
+    BODY = ('<rect id="a" width="3" height="4" stroke="red" stroke-width="2"/>'
+            '<rect id="b" width="3" height="4" stroke="#010203" stroke-width="2" vector-effect="non-scaling-stroke"/>'
+            '<g transform="scale(2)" stroke-width="1.5"><circle id="c" r="2" stroke="blue" vector-effect="non-scaling-stroke"/>'
+            '<line id="d" x2="4" y2="3" stroke="green"/></g>'
+            '<svg x="5" y="5" width="40" height="20" viewBox="0 0 10 10"><path id="e" d="M0,0 L3,4" stroke="#111" stroke-width="10%"'
+            ' vector-effect="non-scaling-stroke"/></svg>')
+    ROOTS = ['width="200" height="100" viewBox="0 0 100 50"', 'width="200" height="100"', 'viewBox="0 0 100 50"',
+             'width="300" height="100" viewBox="-5 -5 30 20" preserveAspectRatio="none"']
+    TRANSFORMS = ["scale(3)", "scale(2,5)", "translate(10,20)", "rotate(30)", "scale(-1,2) translate(3,4)"]
+
+    def __init__(self, svg):
+        self.svg = svg
+        self.p = Product(range(len(self.ROOTS)), self.TRANSFORMS, [True, False])
+
+    def size(self):
+        return len(self.p)
+
+    def case(self, i):
+        ri, t, reify = self.p[i]
+        return dict(root=self.ROOTS[ri], transform=t, reify=reify)
+
+    def observe(self, doc, **kw):
+        res = []
+        for e in self.svg.SVG.parse(io.StringIO(doc), **kw).elements():
+            if isinstance(e, self.svg.Shape):
+                def num(v):
+                    try:
+                        return round(float(v), 6)
+                    except Exception:  # noqa
+                        return repr(v)
+                res.append((e.id, dc.color_tuple(e.fill), dc.color_tuple(e.stroke), num(e.stroke_width), num(e.implicit_stroke_width)))
+        return res
+
+    def run(self, case):
+        out = Outcome()
+        head = '<svg xmlns="http://www.w3.org/2000/svg" %s%s>%s</svg>'
+        try:
+            got = self.observe(head % (case["root"], "", self.BODY), transform=case["transform"], reify=case["reify"])
+            want = self.observe(head % (case["root"], ' transform="%s"' % case["transform"], self.BODY), reify=case["reify"])
+        except Exception as e:  # noqa
+            out.fail("SVG.parse raised %s" % type(e).__name__, None, repr(e), kind="exception", **case)
+            return out
+        out.traces += 2
+        out.transitions += len(want)
+        out.nontrivial.append((case["root"], case["transform"], case["reify"]))
+        out.outcome = tuple(w[3:] for w in want)
+        if got != want:
+            k = next((i for i, (a, b) in enumerate(zip(got, want)) if a != b), min(len(got), len(want)))
+            out.fail("SVG.parse(transform=%r) differs from the same transform written into the root element at shape %d"
+                     % (case["transform"], k), want[k] if k < len(want) else None, got[k] if k < len(got) else None,
+                     kind="caller-transform", **case)
+        return out
+
+
 def build(tier, seed, svg):
     lists = list_docs()
     if tier != "thorough":
         lists = lists[::3]
     return [Sources(svg, tier), Extras(svg, tier), Generated(svg, tier, "lists", lists),
             Generated(svg, tier, "opacity", opacity_docs()), Generated(svg, tier, "widths", width_docs()),
-            GeneratedColor(svg, tier, "currentcolor", currentcolor_docs())]
+            GeneratedColor(svg, tier, "currentcolor", currentcolor_docs()), CallerTransform(svg)]
 
 
 MATCHERS = {}
